@@ -84,8 +84,22 @@ def _run_entry(args):
         need_fo = "C08" in pids
         ctx = make_ctx(spec, binding, need_fo=need_fo)
         _determinism_selftest(ctx)
+        if not ctx.rows_ok and "C09" in pids:
+            ctx.report("C09", "address_one_hots_do_not_reproduce_the_scenario_hosts", key=None,
+                       detail={"tensor_shape": list(ctx.env.current_state.tensor.shape),
+                               "documented_shape": [ctx.layout.nhosts, ctx.layout.width]})
+            out.update({"states": 0, "transitions": 0, "capped": False, "stats": {}, "nontrivial": {},
+                        "violations": ctx.violations, "viol_counts": {"C09|layout": 1}, "unknown_actions": [],
+                        "extra": {}, "hosts": ctx.layout.nhosts, "actions": len(ctx.actions)})
+            out["wall_s"] = time.time() - t0
+            return out
         oracles = [ORACLES[p]() for p in pids if p in ORACLES]
         res = explore(ctx, oracles, max_states=opts.get("max_states"))
+        param_transitions = 0
+        if opts.get("param_pass") and oracles:
+            oracles2 = [ORACLES[p]() for p in pids if p in ORACLES]
+            res2 = explore(ctx, oracles2, max_states=opts.get("max_states"), action_rep="param")
+            param_transitions = res2["transitions"]
         extra = {}
         for mod_name in opts.get("post", []):
             import importlib
@@ -100,6 +114,7 @@ def _run_entry(args):
             "unknown_actions": ctx.unknown_actions[:5],
             "extra": extra,
             "hosts": ctx.layout.nhosts, "actions": len(ctx.actions),
+            "param_transitions": param_transitions,
         })
     except HarnessError as e:
         out["error"] = "HARNESS: " + str(e)
@@ -144,6 +159,7 @@ def run_family(pids, tier, opts=None, entries=None):
             continue
         agg["states"] += r["states"]
         agg["transitions"] += r["transitions"]
+        agg["param_transitions"] = agg.get("param_transitions", 0) + r.get("param_transitions", 0)
         if r["capped"]:
             agg["capped_scenarios"].append(r["name"])
         for k, v in r["stats"].items():
